@@ -18,6 +18,7 @@ import (
 // (a nil element is a zero struct) and leave the caller's value as it was.
 type PtrElemsCase struct {
 	Rows [][]int `json:"rows"` // per row the elements: -1 nil, else the value of A (B is derived)
+	Nil  []bool  `json:"nil,omitempty"` // rows handed in as nil *peRow to the writers of pointer rows (stored as a zero row)
 }
 
 type peInner struct {
@@ -38,6 +39,7 @@ func genPtrElemsCase(t *rapid.T) PtrElemsCase {
 			row = append(row, rapid.IntRange(-1, 5).Draw(t, "e"))
 		}
 		c.Rows = append(c.Rows, row)
+		c.Nil = append(c.Nil, rapid.IntRange(0, 5).Draw(t, "nilrow") == 0)
 	}
 	return c
 }
@@ -237,6 +239,91 @@ func runPtrElemsCase(c PtrElemsCase, o *kit.Obs) *kit.Failure {
 			return kit.Failf("c03/ptrelems/input-modified"+feat, "%s changed the value it was given (nil elements of a []*struct allocated?): rows %v", p.name, c.Rows)
 		}
 	}
+	// writers whose row type is a pointer: a nil row is stored as a row of zero values
+	ptrRows := func() []*peRow {
+		vals := c.values()
+		out := make([]*peRow, len(vals))
+		for i := range vals {
+			if i >= len(c.Nil) || !c.Nil[i] {
+				out[i] = &vals[i]
+			}
+		}
+		return out
+	}
+	wantPtr := append([]string{}, want...)
+	nilRows := 0
+	for i := range wantPtr {
+		if i < len(c.Nil) && c.Nil[i] {
+			wantPtr[i] = "0|"
+			nilRows++
+		}
+	}
+	ptrPaths := []struct {
+		name string
+		run  func(rows []*peRow) ([]string, error)
+	}{
+		{"Writer.Write(*T)", func(rows []*peRow) ([]string, error) {
+			var out bytes.Buffer
+			w := parquet.NewWriter(&out, schema)
+			for _, r := range rows {
+				if err := w.Write(r); err != nil {
+					return nil, err
+				}
+			}
+			if err := w.Close(); err != nil {
+				return nil, err
+			}
+			return readBackPE(out.Bytes())
+		}},
+		{"GenericWriter[*T].Write", func(rows []*peRow) ([]string, error) {
+			var out bytes.Buffer
+			w := parquet.NewGenericWriter[*peRow](&out)
+			if n, err := w.Write(rows); err != nil {
+				return nil, err
+			} else if n != len(rows) {
+				return nil, fmt.Errorf("Write returned %d for %d rows", n, len(rows))
+			}
+			if err := w.Close(); err != nil {
+				return nil, err
+			}
+			return readBackPE(out.Bytes())
+		}},
+		{"GenericBuffer[*T].Write", func(rows []*peRow) ([]string, error) {
+			b := parquet.NewGenericBuffer[*peRow]()
+			if _, err := b.Write(rows); err != nil {
+				return nil, err
+			}
+			var out bytes.Buffer
+			w := parquet.NewGenericWriter[*peRow](&out)
+			if _, err := w.WriteRowGroup(b); err != nil {
+				return nil, err
+			}
+			if err := w.Close(); err != nil {
+				return nil, err
+			}
+			return readBackPE(out.Bytes())
+		}},
+	}
+	for _, p := range ptrPaths {
+		feat := "{path=" + p.name + "}"
+		var got []string
+		var err error
+		func() {
+			defer func() {
+				if r := recover(); r != nil {
+					err = fmt.Errorf("panic: %v", r)
+				}
+			}()
+			got, err = p.run(ptrRows())
+		}()
+		if err != nil {
+			return kit.Failf("c03/ptrelems/ptr-rows-error"+feat, "%s of rows %v (nil rows %v): %v", p.name, c.Rows, c.Nil, err)
+		}
+		if fmt.Sprint(got) != fmt.Sprint(wantPtr) {
+			return kit.Failf("c03/ptrelems/ptr-rows-differ"+feat, "%s stored %v, expected %v (nil rows %v are rows of zero values)", p.name, got, wantPtr, c.Nil)
+		}
+	}
+	o.ClassIf(nilRows > 0, "nil-row")
 	if nils > 0 {
 		o.NonTrivial()
 	}
@@ -247,7 +334,7 @@ var ptrElemsSpec = &kit.Spec[PtrElemsCase]{
 	Property: "C03",
 	Name:     "ptrelems",
 	Rule: "1-8 rows of struct{ID; C []*struct{A int64; B string}} (a repeated group: no list tag) with 0-4 elements of which some are nil, through Schema.Deconstruct, Writer.Write, Buffer.Write, GenericWriter.Write and GenericBuffer.Write (files read back as rows): " +
-		"every path stores the same streams, a nil element being a zero struct, the two leaf columns agree on the number of elements, and the value passed in is left unchanged (compared with a twin). Non-trivial = a nil element.",
+		"(and, with rows handed in as *T of which some are nil, through Writer.Write(*T), GenericWriter[*T] and GenericBuffer[*T]: a nil row is a row of zero values) every path stores the same streams, a nil element being a zero struct, the two leaf columns agree on the number of elements, and the value passed in is left unchanged (compared with a twin). Non-trivial = a nil element.",
 	Gen: genPtrElemsCase,
 	Run: runPtrElemsCase,
 }
